@@ -180,7 +180,7 @@ var states = []string{"AK", "AL", "AR", "AS", "AZ", "CA", "CO", "CT", "DC", "DE"
 
 // fixed calendar: no clock is ever consulted
 var (
-	dates  = []string{"190816", "190819", "200229", "211231", "220101", "230630", "240229", "250102"}
+	dates  = []string{"190816", "190819", "200229", "211231", "220101", "230630", "240229", "250102", "000229", "991231"}
 	times  = []string{"1055", "0000", "2359", "0930", "1200", "1745"}
 	julian = []string{"001", "059", "228", "229", "365", "366"}
 )
